@@ -37,6 +37,14 @@ impl Call {
     pub fn ret_seq_or_max(&self) -> u64 {
         self.ret_seq.unwrap_or(u64::MAX)
     }
+    /// Until when the call may still take effect: its reply, if it got a definite one; a call
+    /// whose client went away (or that hung) may take effect at any later time.
+    pub fn effect_end_seq(&self) -> u64 {
+        match &self.out {
+            Some(Outcome::Ok(_)) | Some(Outcome::Err(_, _)) => self.ret_seq.unwrap_or(u64::MAX),
+            _ => u64::MAX,
+        }
+    }
 }
 
 #[derive(Clone, Debug, PartialEq)]
